@@ -6,6 +6,7 @@ CONSTANTS
   Consumers = {"c1", "c2"}
   NOffer = 3
   NTake = 2
+  Kinds = {"take", "poll"}
   WithClose = FALSE
   GuardedClose = TRUE
 PROPERTY Live_AllDelivered
